@@ -20,6 +20,17 @@ DIRS = {'94->2020': (T.transform_mga94_to_mga2020, T.transform_mga2020_to_mga94,
 
 def grid_input(rng):
     r = rng.random()
+    if rng.random() < 0.12:
+        # within metres of a zone boundary (the ~1.8 m datum shift carries such a point into the next zone: the
+        # result has to be in the natural zone of the TRANSFORMED position), given in its own or the neighbouring zone
+        zb = rng.randint(46, 59)
+        lat = rng.uniform(-60, -5)
+        d = rng.choice([-1, 1]) * 10 ** rng.uniform(-2, 1.2)
+        lon = (zb * 6 - 180) + d / (111320.0 * math.cos(math.radians(lat)))
+        z_in = rng.choice([0, 0, zb, zb + 1])
+        _, zone, e, n, _, _ = CV.geo2grid(lat, lon, z_in)
+        ht = rng.choice(['absent', 0.0, rng.uniform(-100, 3000)])
+        return zone, e, n, ht
     if r < 0.88:
         zone, e, n = rng.randint(46, 59), rng.uniform(1e5, 9e5), rng.uniform(3.35e6, 9.45e6)
         if r < 0.08:      # zone edge / centre, round numbers
